@@ -1043,3 +1043,73 @@ Example C12_example_history2 :
   mrun2 (env_map sc0) true ops {| cb := cs0; log := []; self := new_map 2 |} =
     [RBase RNone; RValOf (v_ 2 7); RBase RUnit; RItems [(k_ 1 6, v_ 93 9)]].
 Proof. vm_compute. reflexivity. Qed.
+
+(* ------------------------------------------------------------------------
+   The stored-key rules for ANY operand-determined == (Proofs/PureEq.v,
+   Proofs/PureEqSet.v; [Related E ck cq R], R an arbitrary relation on classes):
+   which OBJECT stays in the container does not depend on == being lawful --
+   insert keeps the stored key and destroys the supplied one, replace stores the
+   supplied key and hands the old one back; "the same key" means the first
+   stored key related to the supplied one.
+   ------------------------------------------------------------------------ *)
+Require Import Proofs.PureEq Proofs.PureEqSet.
+
+Theorem C12_map_insert_keeps_stored_key_any_relation :
+  forall (K V Q T : Type) (E : env K V Q T) (debug : bool) (ck : K -> N) (cq : Q -> N) (R : N -> N -> bool)
+         (HR : Related E ck cq R) (k : K) (v : V) (w : world K V T),
+    WF (self w) ->
+    wp (insert E debug k v)
+       (fun (r : option V) (w' : world K V T) =>
+          WF (self w') /\ cap (self w') = cap (self w) /\
+          match find_rel ck R (ck k) (Spec.elems (self w)) with
+          | Some i => exists k0 v0, nth_error (Spec.elems (self w)) i = Some (k0, v0) /\ R (ck k0) (ck k) = true /\
+                        r = Some v0 /\ Spec.elems (self w') = upd (Spec.elems (self w)) i (k0, v) /\
+                        logged w w' (ev_drops (idK E k))
+          | None => len (self w) < cap (self w) /\ r = None /\
+                    Spec.elems (self w') = Spec.elems (self w) ++ [(k, v)] /\ log w' = log w
+          end)
+       (fun w' : world K V T =>
+          self w' = self w /\ logged w w' (ev_drops (idV E v ++ idK E k)) /\
+          find_rel ck R (ck k) (Spec.elems (self w)) = None /\ len (self w) = cap (self w)) w.
+Proof. exact (fun K V Q T E debug ck cq R HR => insert_rel_cases E debug ck cq R HR). Qed.
+Print Assumptions C12_map_insert_keeps_stored_key_any_relation.
+
+Theorem C12_set_insert_keeps_stored_key_any_relation :
+  forall (K Q T : Type) (E : env K unit Q T) (debug : bool) (ck : K -> N) (cq : Q -> N) (R : N -> N -> bool)
+         (HR : Related E ck cq R) (k : K) (w : world K unit T),
+    WF (self w) ->
+    wp (s_insert E debug k)
+       (fun (r : bool) (w' : world K unit T) =>
+          WF (self w') /\ cap (self w') = cap (self w) /\
+          Spec.elems (self w') = fst (fst (l_insert_rel ck R (Spec.elems (self w)) k tt false)) /\
+          match find_rel ck R (ck k) (Spec.elems (self w)) with
+          | Some i => r = false /\ Spec.elems (self w') = Spec.elems (self w) /\
+                      (exists k0, nth_error (Spec.elems (self w)) i = Some (k0, tt) /\ R (ck k0) (ck k) = true) /\
+                      logged w w' (ev_drops (idK E k))
+          | None => r = true /\ len (self w) < cap (self w) /\
+                    Spec.elems (self w') = Spec.elems (self w) ++ [(k, tt)] /\ log w' = log w
+          end)
+       (fun w' : world K unit T =>
+          self w' = self w /\ logged w w' (ev_drops (idV E tt ++ idK E k)) /\
+          find_rel ck R (ck k) (Spec.elems (self w)) = None /\ len (self w) = cap (self w)) w.
+Proof. exact (fun K Q T E debug ck cq R HR => set_insert_rel E debug ck cq R HR). Qed.
+Print Assumptions C12_set_insert_keeps_stored_key_any_relation.
+
+Theorem C12_set_replace_swaps_any_relation :
+  forall (K Q T : Type) (E : env K unit Q T) (debug : bool) (ck : K -> N) (cq : Q -> N) (R : N -> N -> bool)
+         (HR : Related E ck cq R) (k : K) (w : world K unit T),
+    WF (self w) ->
+    wp (s_replace E debug k)
+       (fun (r : option K) (w' : world K unit T) =>
+          WF (self w') /\ cap (self w') = cap (self w) /\ log w' = log w /\
+          match find_rel ck R (ck k) (Spec.elems (self w)) with
+          | Some i => exists k0, nth_error (Spec.elems (self w)) i = Some (k0, tt) /\ R (ck k0) (ck k) = true /\
+                        r = Some k0 /\ Spec.elems (self w') = upd (Spec.elems (self w)) i (k, tt)
+          | None => r = None /\ len (self w) < cap (self w) /\
+                    Spec.elems (self w') = Spec.elems (self w) ++ [(k, tt)]
+          end)
+       (fun w' : world K unit T =>
+          self w' = self w /\ logged w w' (ev_drops (idV E tt ++ idK E k)) /\
+          find_rel ck R (ck k) (Spec.elems (self w)) = None /\ len (self w) = cap (self w)) w.
+Proof. exact (fun K Q T E debug ck cq R HR => set_replace_rel E debug ck cq R HR). Qed.
+Print Assumptions C12_set_replace_swaps_any_relation.
